@@ -51,14 +51,38 @@ def _worker(args):
         multi = len({tuple(m) for m in j["e2n"]}) != len(j["e2n"])
         rng = random.Random(seed_ * 982451653 + base + k)
         # orderable labels: all ints or all strings; also ints whose set iteration order is not ascending
-        g = Gamma(*[("ints", "int"), ("str", "int"), ("descset", "int"), ("collide", "int"), ("negint", "int")][(base + k) % 5])
+        g = Gamma(*[("ints", "int"), ("str", "int"), ("descset", "int"), ("collide", "int"), ("negint", "int"),
+                    ("tuple", "int")][(base + k) % 6])
+        big = len(j["nodes"]) > 7
+        if big:
+            g = Gamma("ints", "int")  # the other families cover eight labels
         vname, emap = rng.choice(obscore.edge_id_variants(j, rng))
         H = obscore.realise(j, g, rng, shuffle=True, edge_id_map=emap)
+        if (base + k) % 7 == 3 and not multi and not big and all(j["e2n"]):
+            # the same measures on a SimplicialComplex object (which stores no 0-simplices of its own accord)
+            with warnings.catch_warnings():
+                warnings.simplefilter("ignore")
+                S_ = xgi.SimplicialComplex()
+                S_.add_nodes_from(list(H.nodes))
+                for e_ in H.edges:
+                    S_.add_simplex(list(H._edge[e_]))
+            H, vname = S_, "as SimplicialComplex"
+
+            class GS:
+                name = g.name
+                prev = None
+                inv_node = staticmethod(g.inv_node)
+                inv_attrs = staticmethod(g.inv_attrs)
+
+                @staticmethod
+                def inv_edge(x, _ids={}):
+                    return _ids.setdefault(x, len(_ids))
+            g = GS()
         st, anom = hg.proj(H, g)
-        o, errs = observe(H)
+        o, errs = observe(H, sizes=(2,) if big else (1, 2, 3))
         out.append({"rid": f"s{base + k}", "what": f"shape {base + k} ({g.name}/{vname})", "st": st, "obs": o,
                     "multi": multi, "anom": sorted(set(anom + errs))})
-        if multi:
+        if multi or big or isinstance(H, xgi.SimplicialComplex):
             continue
         # the same object after a count-preserving rewiring (a cache keyed on counts would go stale)
         cand = [(e, n, m) for e in H.edges for n in H._edge[e] for m in H.nodes if m not in H._edge[e]]
@@ -103,7 +127,8 @@ def run(tier, seed_):
     mo_ = [j for j in multi_ if not closed(j)]
     shapes += mc_[: b["max_shapes"] // 3] + rng.sample(mo_, min(len(mo_), b["max_shapes"] // 6))
     # hand-made and random larger shapes: maximal edges overlapping in three or more nodes, nested families
-    extra_members = [[[0, 1, 2, 3], [0, 1, 2, 4], [0, 1, 3, 4]], [[0, 1, 2, 3], [0, 1, 2, 4], [0, 1, 3, 4], [0, 2], [3]],
+    extra_members = [[list(range(13)), [0, 1], [0, 1, 2], [3, 4, 5, 6], [11, 12], [5]],   # a maximal face too large to enumerate casually
+                     [[0, 1, 2, 3], [0, 1, 2, 4], [0, 1, 3, 4]], [[0, 1, 2, 3], [0, 1, 2, 4], [0, 1, 3, 4], [0, 2], [3]],
                      [[0, 1, 2, 3, 4], [0, 1, 2, 3, 5], [0, 1, 2, 4, 5], [0, 1]], [[0, 1, 2, 3], [0, 1, 2, 4], [0, 1, 3, 4], [0, 2, 3, 4]],
                      # downward closed, with interactions recorded more than once
                      [[0, 1, 2], [0, 1], [0, 2], [1, 2], [0], [1], [2], [0, 1, 2]],
